@@ -107,6 +107,9 @@ def step (d : D) (ws : List String) : D × String :=
     let before := c.eng.wal.length
     let after := c'.eng.wal.length
     ({ c := c' }, s!"ok deleted={before - after} files={after} entries={c'.eng.wal.flatten.length}")
+  | ["advance", n] => match n.toNat? with
+    | some k => ({ c := { c with now := c.now + k } }, "ok")
+    | none => (d, "bad-op")
   | ["sstdump"] => (d, sstdump c.dir)
   | _ => (d, "bad-op")
 
